@@ -218,7 +218,7 @@ def import_scenarios(prog, chk, pid, tier):
 
     stk = R.Stack(prog, extra_hooks={BF3 + ".Bf3File.parse_bf2_file": h_parse, BF3 + ".Bf3File.annotations": h_annot})
     src = "def drv(f):\n    g = Bf3File.bf2_import(f)\n    return [(x.description, x.blob) for x in g.components]\n"
-    T = {k: prog.fold_class_attr(prog.cls(BF3 + ".BF3TAG"), k) for k in ("TYPE", "FMT")}
+    T = {k: prog.fold_class_attr(prog.cls(BF3 + ".BF3TAG"), k) for k in ("TYPE", "FMT", "FWVER", "REBOOT")}
     TY = {k: prog.fold_class_attr(prog.cls(BF3 + ".BF3TYPE"), k) for k in ("MAIN", "LOADER", "PERIPHERAL")}
 
     def raw_of(tagtype, offs, payload):
@@ -239,6 +239,11 @@ def import_scenarios(prog, chk, pid, tier):
         ("firmware without the BF3 marker", [("load", [(0x84, 0, 0, a)])], "reject"),
         ("two main sections separated by an instruction boundary (CHECK_FWVER twice)", hdr + [("CHECK_FWVER", {"VERSIONDESC": "*"}), ("load", [(0x84, 0, 0, a)]), ("CHECK_FWVER", {"VERSIONDESC": "*"}), ("load", [(0x84, 0, 0, b)])],
          [(TY["MAIN"], raw_of(0x84, 0, a)), (TY["MAIN"], raw_of(0x84, 0, b))]),
+        # each section carries the version of the CHECK_FWVER instruction that PRECEDES it
+        ("two peripheral sections with different CHECK_FWVER versions", hdr + [("CHECK_FWVER", {"VERSIONDESC": "00 00 02 AA BB"}), ("load", [(0x3D, 0, 0, a)]), ("CHECK_FWVER", {"VERSIONDESC": "00 00 03 C1 C2 C3"}), ("load", [(0x40, 0, 0, b)])],
+         [(TY["PERIPHERAL"], list(a), {"FWVER": b"\xaa\xbb"}), (TY["PERIPHERAL"], list(b), {"FWVER": b"\xc1\xc2\xc3"})]),
+        ("REBOOT closes a section; the reboot tag belongs to that section only", hdr + [("load", [(0x84, 0, 0, a)]), ("REBOOT", ""), ("load", [(0x70, 0, 0, b)])],
+         [(TY["MAIN"], raw_of(0x84, 0, a), {"REBOOT": b"\x01"}), (TY["LOADER"], raw_of(0x70, 0, b), {"REBOOT": None})]),
     ]
     bad = None
     for label, recs, want in scen:
@@ -257,10 +262,18 @@ def import_scenarios(prog, chk, pid, tier):
             dsc, bl = ex.unpack_to(it, 2, res.state, None)
             do = ex.obj(res.state, dsc)
             ty = do.kv.get(T["TYPE"]) if do is not None and do.kind == "dict" else None
-            got.append((cval(ty)[0] if ty is not None and is_const(ty) and len(cval(ty)) == 1 else None, R.flat(ex, res, bl)))
-        okc = len(got) == len(want) and all(g[0] == w[0] and g[1] is not None and len(g[1]) == len(w[1]) and all(x is y for x, y in zip(g[1], w[1])) for g, w in zip(sorted(got, key=lambda t: t[0] if t[0] is not None else -1), sorted(want, key=lambda t: t[0])))
+            tags = {k: (cval(v) if is_const(v) else show(v, 3)) for k, v in (do.kv.items() if do is not None and do.kind == "dict" else [])}
+            got.append((cval(ty)[0] if ty is not None and is_const(ty) and len(cval(ty)) == 1 else None, R.flat(ex, res, bl), tags))
+
+        def tags_ok(g, w):
+            return len(w) < 3 or all(g[2].get(T[k]) == v for k, v in w[2].items())
+
+        # components are sorted by type by the importer (stable): compare in that order, equal types keep file order
+        gs = sorted(got, key=lambda t: t[0] if t[0] is not None else -1)
+        ws = sorted(want, key=lambda t: t[0])
+        okc = len(got) == len(want) and all(g[0] == w[0] and g[1] is not None and len(g[1]) == len(w[1]) and all(x is y for x, y in zip(g[1], w[1])) and tags_ok(g, w) for g, w in zip(gs, ws))
         if not okc:
-            bad = bad or (label, "yields %s, expected %s" % ([(g[0], len(g[1]) if g[1] is not None else None) for g in got], [(w[0], len(w[1])) for w in want]))
+            bad = bad or (label, "yields (type, payload length, tags) %s, expected %s" % ([(g[0], len(g[1]) if g[1] is not None else None, {k: v for k, v in g[2].items() if k in (T["FWVER"], T["REBOOT"])}) for g in got], [(w[0], len(w[1]), w[2] if len(w) > 2 else {}) for w in want]))
     chk.require(bad is None, P_("import-scenarios"), fi.qualname, "%d record sequences, symbolic line contents" % len(scen), where,
                 "every data line of a non-ignored section is used exactly once in its own section's component (raw lines in order for BF2-compatible sections, the contiguous image for blobs); ignored sections contribute nothing and do not disturb the next section; gaps, overlaps, non-zero starts and a missing BF3 marker are rejected",
                 "%s: %s" % bad if bad else "")
